@@ -12,6 +12,7 @@ struct Ctx
   std::string tier = "quick";
   int shard = 0, nshards = 1;
   uint64_t seed = 1;
+  std::string mode; // optional sub-run selector (--mode)
   bool thorough() const { return tier == "thorough"; }
 };
 extern Ctx g_ctx;
